@@ -39,7 +39,7 @@ CHECKS = {
     "C17": {
         "technique": "runtime monitoring: real interpreter run on bounded-exhaustive and random string-function calls, outputs judged online by an executable reference model (Python string operations)",
         "text": "Every enumerated instance of the defining equations is executed by the real pipeline (parse, lint, generate, VM) and compared with the model; exhaustive over the alphabet {a,B,space} up to length 3 (quick) / 5 (thorough) with counts -1..7, all 65536 INTEGER values for VAL(STR$(k)) in the thorough tier, plus random printable-ASCII strings and strings with characters above 127 (positions and counts in characters). Held means: held on the executions listed in the evidence.",
-        "note": "Trusts Python's ASCII string operations as the model, the PRINT path for strings without CR/LF (C16) and the harness worker; UCASE$ / LCASE$ are not judged on characters above 127.",
+        "note": "Trusts Python's ASCII string operations as the model, the PRINT path for strings without CR/LF (C16) and the harness worker; UCASE$ / LCASE$ are expected to change the 26 ASCII letters only, also in strings with characters above 127.",
         "design": "DESIGN.md section 2 C17",
     },
 }
